@@ -732,28 +732,6 @@ Theorem c13_name_forms_splitext_refuted :
   /\ file_parts_k posix_normpath SplitExt (NStr [97; 47; 98; 46; 99; 46; 100]) = file_parts_k posix_normpath (SplitLast 46) (NStr [97; 47; 98; 46; 99; 46; 100]).
 Proof. exact name_forms_splitext_refuted. Qed.
 
-(** The whole-property hypotheses plus the rejection table: [c13_property] applies (first conjunct), the write step of the machine is
-    the method run from the generated tables, and a rejected write stores nothing. *)
-Theorem c13_error_paths : forall et cf pt rt g1 g2 prog nk wp rp sk gp jt nc rj,
-  c13_hyps_r5 et cf pt rt g1 g2 prog nk wp rp sk gp jt nc rj = true -> forall (crc : bytes -> N),
-  c13_hyps et cf pt rt g1 g2 prog nk wp rp sk gp jt nc = true
-  /\ (forall st k d ix,
-        step crc cf st (OWrite k d ix) =
-          match alookup k (tbl st) with
-          | None => Some (st, rMissing)
-          | Some i => match write_guarded_t rj pt crc cf st i d ix with
-                      | Some (st', i', c) => Some (if c =? rOk then with_tbl st' (aset k i' (tbl st')) else st', c)
-                      | None => None
-                      end
-          end)
-  /\ (forall st i d ix st' i' c, write_guarded_t rj pt crc cf st i d ix = Some (st', i', c) -> c <> rOk -> st' = st /\ i' = i).
-Proof. exact c13_error_paths_composed. Qed.
-
-Theorem c13_error_paths_hypotheses_satisfiable :
-  c13_hyps_r5 exit_table_pinned ex_cfg table_pinned rtable_pinned goc_pinned goc_pinned del_prog_pinned ncodec_pinned wprog_pinned rprog_pinned
-           (SplitLast 46) gparts_pinned join_table_pinned (ex_ncfg (n_writer (ex_ncfg reader_rstrip))) rej_table_pinned = true.
-Proof. exact c13_hyps_r5_pinned. Qed.
-
 (** ---- round 5: the listing methods called with arguments (SM/VpkListing.v) ---- *)
 
 (** [list_walk w ext folder t] is what `filenames(ext, folder)` / `fileinfos(ext=, folder=)` yield on the nested dicts [t] when the method,
@@ -775,3 +753,31 @@ Theorem c13_listing_walks_computed :
   walks_ok walks_pinned = true /\ walks_ok walks_inverted_filter = false
   /\ walks_ok (map (fun x : bool * bool * lwalk => let '(eg, fg, w) := x in (eg, fg, mkWalk EAll (lw_dir w) true)) walks_pinned) = false.
 Proof. exact walks_computed. Qed.
+
+(** ---- round 5: the additions to the whole property as one statement (SM/VpkProperty.v) ---- *)
+
+(** [c13_hyps_r5] = the hypotheses of [c13_property] and three more generated objects: the rejection table of FileInfo.write and the
+    walks of `filenames` / `fileinfos` under their arguments.  Then [c13_property] applies (first conjunct) and: the write step of the
+    state machine is the method run from the generated tables, validations included; a rejected write stores nothing; the listing methods
+    called with arguments list exactly the matching entries of the default walk. *)
+Theorem c13_property_r5 : forall et cf pt rt g1 g2 prog nk wp rp sk gp jt nc rj wn wi,
+  c13_hyps_r5 et cf pt rt g1 g2 prog nk wp rp sk gp jt nc rj wn wi = true -> forall (crc : bytes -> N),
+  c13_hyps et cf pt rt g1 g2 prog nk wp rp sk gp jt nc = true
+  /\ (forall st k d ix,
+        step crc cf st (OWrite k d ix) =
+          match alookup k (tbl st) with
+          | None => Some (st, rMissing)
+          | Some i => match write_guarded_t rj pt crc cf st i d ix with
+                      | Some (st', i', c) => Some (if c =? rOk then with_tbl st' (aset k i' (tbl st')) else st', c)
+                      | None => None
+                      end
+          end)
+  /\ (forall st i d ix st' i' c, write_guarded_t rj pt crc cf st i d ix = Some (st', i', c) -> c <> rOk -> st' = st /\ i' = i)
+  /\ (forall eg fg w, In (eg, fg, w) (wn ++ wi) -> forall ext folder t, NoDup (map fst t) ->
+        list_walk w ext folder t = filter (listed eg fg ext folder) (flat_tree t)).
+Proof. exact c13_property_r5_composed. Qed.
+
+Theorem c13_property_r5_hypotheses_satisfiable :
+  c13_hyps_r5 exit_table_pinned ex_cfg table_pinned rtable_pinned goc_pinned goc_pinned del_prog_pinned ncodec_pinned wprog_pinned rprog_pinned
+           (SplitLast 46) gparts_pinned join_table_pinned (ex_ncfg (n_writer (ex_ncfg reader_rstrip))) rej_table_pinned walks_pinned walks_pinned = true.
+Proof. exact c13_hyps_r5_pinned. Qed.
